@@ -403,6 +403,9 @@ class ProductState:
             List of states to apply the operators to, the tensoring order in operators
             must follow the order of the states in this list
         """
+        # A channel can turn a pure state into a mixture
+        self.expand()
+
         if self.expansion_level == ExpansionLevel.Vector:
             # Get the state and reshape it
             shape = [s.dimensions for s in self.state_objs]
